@@ -36,6 +36,8 @@ def run(ctx, chk):
     r5(ctx, chk)
     r6(ctx, chk)
     r7(ctx, chk)
+    from .c12 import relative_now_rule
+    relative_now_rule(ctx, chk, "C04.R8")
 
 
 def _units(ctx):
